@@ -74,3 +74,35 @@ def hir_walk(n):
             stack.extend(x.values())
         elif isinstance(x, list):
             stack.extend(x)
+
+
+def hir_walk_p(n, parents=()):
+    """Yield (node, parents) for every HIR node; parents is the tuple of enclosing nodes (outermost first)."""
+    if isinstance(n, dict):
+        if "k" in n:
+            yield n, parents
+            parents = parents + (n,)
+        for v in n.values():
+            yield from hir_walk_p(v, parents)
+    elif isinstance(n, list):
+        for x in n:
+            yield from hir_walk_p(x, parents)
+
+
+def calls_in(body):
+    """All Call/MethodCall nodes of a body with their resolved callee (inst preferred)."""
+    out = []
+    for n, ps in hir_walk_p(body["hir"]):
+        if n["k"] in ("Call", "MethodCall") and (n.get("callee") or n.get("inst")):
+            out.append((n.get("inst") or n.get("callee"), n, ps))
+    return out
+
+
+def all_bodies(crate):
+    for name, b in crate.bodies.items():
+        if "hir" in b:
+            yield name, b
+
+
+def is_test_fn(name):
+    return "::tests::" in name or "::test::" in name or name.startswith("tests::") or "::test_" in name
